@@ -559,3 +559,11 @@ def cached_error_is_a_secop_error(ctx):
         ids = {i for c in conv for i in cfg.node_of(c)}
         ctx.check(bool(ids) and ids <= on and not (ids & off - on), f'{f.qualname}:conversion on the validate side', tt.ast, 'datatype(value) runs iff validate',
                   f'`{src(tt.ast)}`: the datatype conversion runs on the side where validate is false: assigned values enter the cache unchecked', f)
+
+
+@rule('C05.R11', min_instances=1)
+def activated_connection_stays_activated(ctx):
+    """shared with C08.R3g: a connection that is generally activated keeps receiving every update until IT deactivates the
+    whole node: a `deactivate <module>` must not end the general activation (the stream would stop following the cache)"""
+    from sa.rules import c08
+    c08.a_scoped_deactivate_leaves_the_general_activation_alone(ctx)
